@@ -38,6 +38,8 @@ type Solver struct {
 	Fallbacks int
 	Restarts int
 	bin string
+	Errors int
+	broken bool
 	stack []*Term // incremental prefix mode: path-condition terms currently asserted, one push level each
 }
 
@@ -182,6 +184,14 @@ func (s *Solver) Close() {
 func (s *Solver) Check(conj []*Term) Result {
 	t0 := time.Now()
 	defer func() { d := time.Since(t0); s.Time += d; s.Queries++; s.Durs = append(s.Durs, d) }()
+	if s.broken && !s.incremental {
+		s.cmd.Process.Kill()
+		s.cmd.Wait()
+		if ns, err := newSolverMode(s.bin, 60000, false); err == nil {
+			s.cmd, s.in, s.out = ns.cmd, ns.in, ns.out
+		}
+		s.broken = false
+	}
 	if !s.incremental {
 		s.pr = NewPrinter()
 	} else if len(s.stack) > 0 {
@@ -259,6 +269,8 @@ func (s *Solver) readResult() Result {
 			return Unknown
 		case strings.HasPrefix(line, "(error"):
 			fmt.Println("SOLVER ERROR:", line)
+			s.Errors++
+			s.broken = true // the pending check-sat answer would be read as the next query's: restart before reuse
 			return Unknown
 		}
 	}
@@ -344,6 +356,21 @@ func (s *Solver) readResultTimed() Result {
 	}()
 	select {
 	case r := <-ch:
+		if r == errResult {
+			// an (error ...) line: the context can no longer be trusted (a dropped definition/assertion would make later
+			// answers meaningless) - restart with an empty context and let the fallback decide this query
+			s.Errors++
+			s.cmd.Process.Kill()
+			s.cmd.Wait()
+			ns, err := newSolverMode(s.bin, primaryMs, true)
+			if err == nil {
+				s.cmd, s.in, s.out, s.pr = ns.cmd, ns.in, ns.out, ns.pr
+			}
+			s.restarted = true
+			s.stack = nil
+			s.Restarts++
+			return Unknown
+		}
 		return r
 	case <-time.After(budget):
 		s.cmd.Process.Kill()
@@ -374,7 +401,12 @@ func readResultFrom(out *bufio.Reader) Result {
 		case line == "unknown" || line == "timeout":
 			return Unknown
 		case strings.HasPrefix(line, "(error"):
-			return Unknown
+			if os.Getenv("SYMGO_SHOWERR") != "" {
+				fmt.Println("SOLVER ERROR:", line)
+			}
+			return errResult
 		}
 	}
 }
+
+const errResult Result = 99
